@@ -21,8 +21,8 @@ from ..native import Pool
 from ..tlc import MachineryError, run_tlc, workdir
 
 INVARIANTS = ["KernelMatches", "OwnMatches", "LockMutex", "CacheBound", "CacheSound", "Sequential", "NoSharedStruct"]
-PARAMS = {"quick": dict(schedules=14, free_rounds=5, nthreads=16, three=False, hammer_rounds=2, hammer_calls=150),
-          "thorough": dict(schedules=400, free_rounds=40, nthreads=16, three=True, hammer_rounds=8, hammer_calls=3000)}
+PARAMS = {"quick": dict(schedules=14, free_rounds=5, nthreads=16, three=False, hammer_rounds=2, hammer_calls=150, heavy_rounds=4),
+          "thorough": dict(schedules=400, free_rounds=40, nthreads=16, three=True, hammer_rounds=8, hammer_calls=3000, heavy_rounds=30)}
 
 
 def make_requests(rng):
@@ -61,7 +61,17 @@ def make_requests(rng):
                     ("o3", {"op": "+", "left": big, "right": 0.5}), ("o4", {"op": "*", "left": -1.5, "right": big}),
                     ("o5", {"op": "*", "left": mat, "right": 4.0}), ("o6", {"op": "+", "left": mat, "right": mat})):
         reqs[name] = {"operator": o, "backend": "llvm"}
-    keys = {"o1": "ko1", "o2": "ko2", "o3": "ko3", "o4": "ko4", "o5": "ko5", "o6": "ko6", "r1": "k1", "r2": "k1", "r8": "k1", "r9": "k4", "r3": "k3", "r4": "k4", "r6": "k4", "r5": "k5", "r7": "k7"}
+    # heavy kernels (dense 120 x 120 matrix product): a call is in flight for milliseconds, so that whatever a second
+    # thread does to a kernel object during its FIRST use (compiling it again, replacing it) meets a running call
+    import itertools as _it
+
+    def full(dims, f):
+        return tensor(f, dims, [[list(c), {"n": 1 + (c[0] + 2 * c[1]) % 3, "e": 0}] for c in _it.product(*[range(d) for d in dims])])
+
+    for name, backend in (("h1", "llvm"), ("h2", "cffi")):
+        reqs[name] = {"text": "c(i,k) = a(i,j) * b(j,k)", "output_format": "dd", "backend": backend,
+                      "inputs": {"a": full([120, 120], "d0d1"), "b": full([120, 120], "d0d1")}}
+    keys = {"h1": "kh1", "h2": "kh2", "o1": "ko1", "o2": "ko2", "o3": "ko3", "o4": "ko4", "o5": "ko5", "o6": "ko6", "r1": "k1", "r2": "k1", "r8": "k1", "r9": "k4", "r3": "k3", "r4": "k4", "r6": "k4", "r5": "k5", "r7": "k7"}
     return reqs, keys
 
 
@@ -139,7 +149,7 @@ def run(tier, seed):
         names = list(reqs)
         for fr in range(P["free_rounds"]):
             nth = P["nthreads"]
-            pick = [rng.choice([n_ for n_ in names if not n_.startswith("o")]) for _ in range(nth)]
+            pick = [rng.choice([n_ for n_ in names if n_[0] not in "oh"]) for _ in range(nth)]
             if fr % 2 == 0:
                 pick = [rng.choice(["r1", "r2", "r3", "r7", "r8", "r8"]) for _ in range(nth - 3)] + [rng.choice(["r4", "r5", "r6"]) for _ in range(3)]
             threads = [(i + 1, pick[i]) for i in range(nth)]
@@ -149,6 +159,11 @@ def run(tier, seed):
             threads = [(i + 1, ["r1", "r8", "r2", "r8"][i % 4] if hr % 2 == 0 else ["r4", "r9", "r6", "r9"][i % 4]) for i in range(P["nthreads"])]
             rounds.append({"rid": len(rounds), "scenario": "hammer", "threads": threads, "warm": [threads[0][1]], "schedule": None,
                            "hammer": P.get("hammer_calls", 300)})
+        # cold heavy rounds: every thread makes the first call of the same never-compiled heavy kernel at once
+        for hr in range(P.get("heavy_rounds", 3)):
+            nm = "h2" if hr % 3 == 2 else "h1"
+            rounds.append({"rid": len(rounds), "scenario": "cold-heavy", "threads": [(i + 1, nm) for i in range(8)], "warm": [],
+                           "schedule": None, "results_only": True})
         # operator hammer: every thread applies a tensor operator with its own Python number, over and over
         for hr in range(max(1, P.get("hammer_rounds", 2) // 2)):
             threads = [(i + 1, ["o1", "o2", "o3", "o4", "o5", "o6"][i % 6]) for i in range(P["nthreads"])]
@@ -190,7 +205,7 @@ def run(tier, seed):
                                 "case": {**rd, "events": o["events"][:200]}})
             # code -> spec: every recorded cold round (scheduled or free) is validated as a trace; kernels compiled
             # before a warm round started have no jit event, so warm rounds are judged by their results only
-            if o["errors"] or rd["warm"] or rd.get("hammer"):
+            if o["errors"] or rd["warm"] or rd.get("hammer") or rd.get("results_only"):
                 continue
             mod, cfgc = mc_module(f"{tag}_t{rd['rid']}", [tuple(x) for x in rd["threads"]], reqs, keys, [], True)
             created.append(mod)
